@@ -1880,7 +1880,7 @@ func genQ01(w *bufio.Writer, rng *prng, n int, depth int) {
 				parts = append(parts, lit("\n"))
 			}
 			parts = append(parts, fn("redact", lit(l)))
-			q.pred("C03", "a line of the output is not well-formed alone", "redactable", lit(l), hxs(j))
+			q.pred("C03", "a line of the output is not well-formed alone", "wf", lit(l), hxs(j))
 		}
 		q.eq("C03", "redacting line by line differs from redacting the whole", fn("redact", lit(j)), cat(parts...), hxs(j))
 	}
